@@ -10,7 +10,7 @@ use similari::voting::topn::TopNVoting;
 use similari::voting::Voting;
 use std::collections::{BTreeMap, HashMap, HashSet};
 use vh::rng::Hasher;
-use vh::votingref::{check_sort, claims, near, Elt};
+use vh::votingref::{check_sort, check_visual, claims, near, Elt};
 use vh::{json, Cli, Report, Rng, Value};
 
 fn to_u(stream: &[Elt]) -> Vec<ObservationMetricOk<Universal2DBox>> {
@@ -169,85 +169,6 @@ fn check_best(rep: &mut Report, idx: u64, stream: &[Elt], maxd: f32, minv: usize
     tie
 }
 
-fn check_visual(rep: &mut Report, idx: u64, stream: &[Elt], thr: f32, maxd: f32, minv: usize, res: &BTreeMap<u64, Vec<(u64, bool)>>, ctx: &Value) -> bool {
-    let cl = claims(stream, maxd, minv);
-    let mut tie = false;
-    let mut per_t: BTreeMap<u64, Vec<(u64, f64)>> = BTreeMap::new();
-    let mut per_q: BTreeMap<u64, Vec<(u64, f64)>> = BTreeMap::new();
-    for ((q, t), (_, w)) in &cl {
-        per_t.entry(*t).or_default().push((*q, *w));
-        per_q.entry(*q).or_default().push((*t, *w));
-    }
-    for l in per_t.values_mut().chain(per_q.values_mut()) {
-        l.sort_by(|a, b| b.1.partial_cmp(&a.1).unwrap());
-        if l.len() > 1 && near(l[0].1, l[1].1) {
-            tie = true;
-        }
-    }
-    let mut used = HashSet::new();
-    let mut visual_taken = HashSet::new();
-    for (q, l) in res {
-        if l.len() != 1 {
-            rep.violation("C17/visual/not-one-winner", idx, json!({"ctx": ctx, "query": q, "winners": l}));
-            continue;
-        }
-        let (t, vis) = l[0];
-        if t != *q && !used.insert(t) {
-            rep.violation("C17/visual/track-awarded-twice", idx, json!({"ctx": ctx, "track": t, "result": res}));
-        }
-        if vis && t != *q {
-            visual_taken.insert(t);
-            // must be a qualifying claim and q must be the greatest claimant of t
-            match per_t.get(&t) {
-                Some(cls) if cls.iter().any(|c| c.0 == *q) => {
-                    if cls[0].0 != *q && !near(cls[0].1, cls.iter().find(|c| c.0 == *q).unwrap().1) {
-                        rep.violation("C17/visual/visual-to-lesser-claimant", idx, json!({"ctx": ctx, "query": q, "track": t, "claimants": cls}));
-                    }
-                }
-                _ => rep.violation("C17/visual/visual-without-qualifying-claim", idx, json!({"ctx": ctx, "query": q, "track": t})),
-            }
-        }
-        if !vis && t != *q && per_q.contains_key(q) {
-            // a query with an appearance claim must not end up positionally on a track it claimed and lost
-            if cl.contains_key(&(*q, t)) {
-                rep.violation("C17/visual/loser-attached-to-contested-track", idx, json!({"ctx": ctx, "query": q, "track": t}));
-            }
-        }
-    }
-    if tie {
-        return true;
-    }
-    // a query that is the clear greatest claimant of the track that is its own clear best claim must win it visually
-    for (q, l) in &per_q {
-        let (t, _) = l[0];
-        if per_t[&t][0].0 == *q {
-            match res.get(q) {
-                Some(v) if v.len() == 1 && v[0] == (t, true) => {}
-                other => rep.violation("C17/visual/best-claim-not-honoured", idx, json!({"ctx": ctx, "query": q, "track": t, "got": other})),
-            }
-        }
-    }
-    // queries without any appearance claim: optimal positional assignment among tracks not taken by appearance
-    let pos_stream: Vec<Elt> = stream.iter().filter(|e| !per_q.contains_key(&e.q) && !visual_taken.contains(&e.t) && e.w.is_some()).cloned().collect();
-    // tracks excluded by the library may also include tracks "won" by a query's top claim that was lost; only judge
-    // when the statement's exclusion set (tracks taken by appearance) equals the set of all top-claim tracks
-    let top_claim_tracks: HashSet<u64> = per_q.values().map(|l| l[0].0).collect();
-    if top_claim_tracks == visual_taken {
-        let winners: HashMap<u64, Vec<u64>> = res.iter().filter(|(q, _)| !per_q.contains_key(q)).map(|(q, l)| (*q, vec![l[0].0])).collect();
-        for (q, l) in res {
-            if !per_q.contains_key(q) && l[0].1 && l[0].0 != *q {
-                rep.violation("C17/visual/visual-type-without-claim", idx, json!({"ctx": ctx, "query": q}));
-            }
-        }
-        let c = check_sort(&pos_stream, thr, &winners);
-        if let Some(e) = c.error {
-            rep.violation("C17/visual/positional-stage", idx, json!({"ctx": ctx, "error": e, "positional_stream": js(&pos_stream), "result": res}));
-        }
-        rep.count("visual_positional_stage_checked");
-    }
-    false
-}
-
 fn permutations(n: usize) -> Vec<Vec<usize>> {
     fn rec(cur: &mut Vec<usize>, used: &mut Vec<bool>, n: usize, out: &mut Vec<Vec<usize>>) {
         if cur.len() == n {
@@ -354,7 +275,7 @@ fn main() {
             rep.violation("C17/hungarian", idx, json!({"ctx": ctx, "error": e, "result": r_sort.iter().collect::<BTreeMap<_, _>>()}));
         }
         let r_vis = run_visual(&stream, thr, maxd, minv);
-        let tie_v = check_visual(&mut rep, idx, &stream, thr, maxd, minv, &r_vis, &ctx);
+        let tie_v = check_visual(&mut rep, idx, &stream, thr, maxd, minv, &r_vis, &ctx, "C17");
         if tie_b || tie_v {
             rep.count("cases_with_near_tie_downgraded");
         }
